@@ -32,3 +32,11 @@ Theorem C11_alap : forall p,
   (forall b, In b (alap_bookings p) -> b_slot b < p_upper p).
 Proof. intros p. split; [exact (alap_dates_in_horizon p)|intros b Hb; exact (proj1 (alap_working p b Hb))]. Qed.
 Print Assumptions C11_alap.
+
+(* ---- second granularity: every slot a placed task booked lies inside the horizon (first clause of Booked) *)
+Require Import SP.Model.SubSlot SP.Proofs.SubSlotProofs.
+Theorem C11_subslot : forall p, wf p -> forall t f e,
+  sleaf_dates (sschedule p) t = Some (f, e) -> s_mile (stask_of p t) = false ->
+  exists bs, Booked p (sschedule p) t f e bs.
+Proof. exact subslot_effort. Qed.
+Print Assumptions C11_subslot.
